@@ -407,11 +407,11 @@ func c09Histories(c *mc.Ctx) {
 		if i > 0 {
 			other = corpus[idx[i-1]]
 		}
-		bufA := clone(in)
+		bufA, intact := guard(in)
 		out, err, meta := a.step(bufA, other)
 		c.Ops(3)
 		lastErr = err
-		if !bytes.Equal(bufA, in) {
+		if !bytes.Equal(bufA, in) || !intact() {
 			c.Failf("input-modified", "%s: step %d changed its input", desc(), i)
 		}
 		if c09PerPacket(kind) {
